@@ -1012,7 +1012,7 @@ let () =
          (* perft(2) against the rules at every node of short walks; thorough adds perft(3) at the roots of a smaller sample
             (the specification's mailbox perft(3) costs ~0.3 s per position) *)
          run_positions s r corpus { none with p_perft = 2; depth = 3; undo_pct = 0; null_pct = 0 } 400 6000
-                    ~extra:(tagged "castling_family" (castling_family r (100 / !nshards)) @ tagged "ep_family" (ep_family r (200 / !nshards))) ();
+                    ~extra:(tagged "castling_family" (castling_family r (100 / !nshards)) @ tagged "ep_family" (ep_family r (900 / !nshards))) ();
          if !tier <> "quick" then
            run_positions s r corpus { none with p_perft = 3; depth = 0; undo_pct = 0; null_pct = 0 } 0 1200
                     ~extra:(tagged "castling_family" (castling_family r (160 / !nshards)) @ tagged "promo_family" (promo_family r (160 / !nshards))) ()
